@@ -39,10 +39,11 @@ type SchemaOpts struct {
 }
 
 type sgen struct {
-	r     *rand.Rand
-	o     SchemaOpts
-	ndefs int
-	names []string
+	forceGroup string
+	r          *rand.Rand
+	o          SchemaOpts
+	ndefs      int
+	names      []string
 }
 
 // Schema generates a schema document in model form (map[string]any or bool).
@@ -196,6 +197,9 @@ func (g *sgen) schema(depth int, parentGroup string, curDef int, inPlace bool, i
 	if group == "" || r.IntN(10) >= 6 {
 		group = Pick(r, groups)
 	}
+	if g.forceGroup != "" && r.IntN(10) < 8 {
+		group = g.forceGroup
+	}
 	s := map[string]any{}
 	own := g.keywordsOf(group)
 	n := 2 + r.IntN(3)
@@ -205,6 +209,17 @@ func (g *sgen) schema(depth int, parentGroup string, curDef int, inPlace bool, i
 	for i := r.IntN(3); i > 0; i-- {
 		og := Pick(r, groups)
 		g.addKeyword(s, Pick(r, g.keywordsOf(og)), depth, group, curDef, inPlace)
+	}
+	// interaction faults live where an in-place applicator sits next to object/array keywords and its
+	// branches talk about the same properties/items: force that combination often
+	if (group == "object" || group == "array") && r.IntN(10) < 4 {
+		saved := g.forceGroup
+		g.forceGroup = group
+		g.addKeyword(s, Pick(r, []string{"allOf", "anyOf", "oneOf", "if", "not", "allOf", "anyOf"}), depth, group, curDef, inPlace)
+		if group == "object" && g.o.Draft == D2020 && r.IntN(3) == 0 {
+			g.addKeyword(s, "dependentSchemas", depth, group, curDef, inPlace)
+		}
+		g.forceGroup = saved
 	}
 	if g.o.Refs && r.IntN(4) == 0 {
 		if ref, ok := g.ref(curDef, inPlace); ok {
@@ -260,7 +275,7 @@ func (g *sgen) subs(depth int, group string, curDef int, inPlace bool, lo, hi in
 func (g *sgen) someNames(lo, hi int) []any {
 	n := lo + g.r.IntN(hi-lo+1)
 	seen := map[string]bool{}
-	var out []any
+	out := []any{}
 	for len(out) < n {
 		nm := Pick(g.r, g.names)
 		if !seen[nm] {
